@@ -48,6 +48,38 @@ type Op struct {
 	Plan func(w *World, p *BlockPlan)
 }
 
+// ExecCrashBeforeCommit builds the block of plan p and runs FinalizeBlock without Commit; the
+// environment is restored so that the same op can be planned again after a restart.
+func (w *World) ExecCrashBeforeCommit(op *Op) error {
+	env := w.Env
+	p := w.PlanOp(op)
+	saveGov := p.Gov
+	p.Gov = nil // gov steps write into the working store that the restart throws away anyway
+	_ = saveGov
+	if p.Dt == 0 {
+		p.Dt = 5
+	}
+	if p.SetAtom != "" {
+		w.Env.Atom = p.SetAtom
+	}
+	if p.SetElys != "" {
+		w.Env.Elys = p.SetElys
+	}
+	var txs [][]byte
+	seqUsed := map[string]uint64{}
+	if p.Feed {
+		txs = append(txs, w.Tx(w.A("feeder"), nil, 0, w.FeedMsg()))
+		seqUsed["feeder"] = 1
+	}
+	for _, t := range p.Txs {
+		txs = append(txs, w.Tx(w.A(t.Signer), t.Fee, seqUsed[t.Signer], t.Msgs...))
+		seqUsed[t.Signer]++
+	}
+	_, err := w.FinalizeOnly(w.Env.Tm+p.Dt, txs)
+	w.Env = env
+	return err
+}
+
 // Exec turns a plan into a real block: gov steps, signed txs, FinalizeBlock, Commit.
 func (w *World) Exec(p *BlockPlan) *BlockResult {
 	if p.Dt == 0 {
@@ -481,6 +513,10 @@ func NewOpLib() *OpLib {
 	l.Add("send_elys_to_burn_addr", "burnsend", 1, func(w *World, p *BlockPlan) {
 		a := w.A("t3")
 		p.Txs = one("t3", &banktypes.MsgSend{FromAddress: a.Addr.String(), ToAddress: sdk.AccAddress(make([]byte, 20)).String(), Amount: sdk.NewCoins(C("uelys", 5000000))})
+	})
+	l.Add("burn_two_denoms", "burnsend", 1, func(w *World, p *BlockPlan) {
+		a := w.A("t3")
+		p.Txs = one("t3", &banktypes.MsgSend{FromAddress: a.Addr.String(), ToAddress: sdk.AccAddress(make([]byte, 20)).String(), Amount: sdk.NewCoins(C("uelys", 5000000), C("uatom", 3000000), C("uusdc", 1000000))})
 	})
 	l.Add("donate_p1_atom", "donate", 1, func(w *World, p *BlockPlan) {
 		a := w.A("donor")
